@@ -207,8 +207,12 @@ func c02RunCfg(rep *vh.Report, c c02Cfg, quick bool) {
 
 func c02CheckInstant(rep *vh.Report, srv *Server, a *vref.VAsset, c c02Cfg, prefix string, t int64) {
 	url := fmt.Sprintf("%s/%s/%s?nowMS=%d", prefix, c.asset, c.mpd, t)
+	tag := ""
+	if vTimeOffsetAsset(c.asset) {
+		tag = ":vod-time-offset"
+	}
 	viol := func(clause, sig, msg, u string) {
-		rep.Violate(clause, sig, fmt.Sprintf("%s t=%d: %s", c, t, msg), map[string]any{"mpd_url": url, "url": u})
+		rep.Violate(clause, sig+tag, fmt.Sprintf("%s t=%d: %s", c, t, msg), map[string]any{"mpd_url": url, "url": u})
 	}
 	resp := vGet(srv, url)
 	rep.AddExecs(1)
